@@ -253,6 +253,8 @@ def rule_order(ctx, res):
                   '', 'a later step creates "space before line end" text '
                   'that the trailing-space step has already passed',
                   f.module.loc(subs[t].node))
+    if trail:
+        _rule_spaces_after_trail(res, f, q, subs, trail[0])
     if collapse and cr:
         res.check(all(i < collapse[0] for i in cr), 'R-C10-order', q,
                   'CR normalisation precedes the blank-line collapse', '',
@@ -269,6 +271,59 @@ def rule_order(ctx, res):
     res.check(ok, 'R-C10-order', q, 'indentation = width * depth spaces',
               '{} steps insert the indentation'.format(len(ind)),
               'inserted indentation is not b" " * width * depth', f.loc)
+
+
+def _ends_at_dollar(pattern, flags=0):
+    """the pattern's last element is `$` without MULTILINE: in Python that
+    also matches just before a line end that ends the subject"""
+    import re
+    try:
+        tree = re._parser.parse(pattern, flags)
+    except Exception:
+        return False
+    items = list(tree)
+    if not items:
+        return False
+    op, av = items[-1]
+    return str(op) == 'AT' and str(av) == 'AT_END' and not (
+        (flags | tree.state.flags) & re.MULTILINE)
+
+
+def _rule_spaces_after_trail(res, f, q, subs, t):
+    """no step behind the trailing-space deletion may put spaces in front of
+    a line end again.  A step whose replacement ends in the indentation and
+    whose pattern ends in `$` does: `$` also matches before a final newline,
+    so on a run that ends in a blank line the indentation lands in front of
+    that newline."""
+    for k in range(t + 1, len(subs)):
+        s = subs[k]
+        inst = 'no spaces before a line end after the trailing-space ' \
+            'deletion: step {}'.format(s.describe())
+        loc = f.module.loc(s.node)
+        tail_spaces = bool(s.repl) and s.repl[-1][0] == 'spaces'
+        tail_lit_space = bool(s.repl) and s.repl[-1][0] == 'lit' and \
+            s.repl[-1][1].endswith(b' ')
+        if not (tail_spaces or tail_lit_space):
+            res.holds('R-C10-order', q, inst, 'replacement does not end in '
+                      'spaces', loc, nontrivial=False)
+            continue
+        if not _ends_at_dollar(s.pattern, s.flags):
+            res.holds('R-C10-order', q, inst, 'the match cannot be followed '
+                      'by a line end the pattern did not consume', loc,
+                      nontrivial=False)
+            continue
+        repaired = any(
+            not u.guard and u.pattern == br' +\n' and
+            u.repl_literal() == b'\n' for u in subs[k + 1:])
+        res.check(repaired, 'R-C10-order', q, inst,
+                  'a later step deletes them again',
+                  'the pattern ends in `$`, which also matches in front of a '
+                  'final line end, and the replacement ends in the '
+                  'indentation: on a whitespace run that ends in a blank line '
+                  '(b"\\n\\n" between two statements of a block) the blank '
+                  'line becomes a line of spaces; no later step removes '
+                  'them, so the output has a line ending in whitespace and '
+                  'formatting it again changes it', loc, semantic=True)
 
 
 def rule_indentwidth(ctx, res):
